@@ -97,7 +97,7 @@ static std::string genAsm(std::mt19937_64 &rng) {
   std::ostringstream o; o << "BR start\nDATA 2000\nv0\nDATA 0\nv1\nDATA 0\nstart\n";
   int n = 5 + rng() % 25;
   for (int i = 0; i < n; i++) {
-    switch (rng() % 9) {
+    switch (rng() % 11) {
     case 0: o << "LDAC " << (int)(rng() % 70000) - 35000 << "\n"; break;
     case 1: o << "LDBC " << (int)(rng() % 300) << "\nOPR ADD\n"; break;
     case 2: o << "LDBC " << (int)(rng() % 300) << "\nOPR SUB\n"; break;
@@ -106,6 +106,8 @@ static std::string genAsm(std::mt19937_64 &rng) {
     case 5: o << "BRN n" << i << "\nLDBC 3\nOPR ADD\nn" << i << "\n"; break;
     case 6: { int strm = (rng() % 4 == 0) ? 0 : (int)(rng() % 256); o << "LDBM 1\nSTAI 2\nLDAC " << strm << "\nSTAI 3\nLDAC 1\nOPR SVC\n"; break; }   // write(areg low byte, stream<256)
     case 7: o << "LDBM 1\nLDAC 0\nSTAI 2\nLDAC 2\nOPR SVC\nLDBM 1\nLDAI 0\nLDBM 1\nLDBI 1\nLDAM 1\nLDAI 1\n"; break;                           // read(stream 0) -> mem[sp+1]; areg = it
+    case 8: { int strm = (int)(rng() % 256); o << "LDBM 1\nSTAI 2\nLDAC " << strm << "\nSTAI 3\nLDAC 1\nOPR SVC\nOPR SVC\n"; break; }                 // the same write twice: two SVCs back to back
+    case 9: o << "LDBM 1\nLDAC 0\nSTAI 2\nLDAC 2\nOPR SVC\nOPR SVC\nLDBM 1\nLDAI 1\n"; break;                                               // two reads back to back
     default: o << "LDAP p" << i << "\nLDBM 1\nSTAI 4\np" << i << "\n"; break;
     }
   }
